@@ -220,7 +220,7 @@ Print Assumptions C09_static_solve_contract.
    the last pass's (acyclic) constraint set - i.e. vpsc::Solver::solve() does not throw UnsatisfiedConstraint there and
    the model's fuel suffices (`static_no_throw_on_dag`, not proved: see Properties/C01.v; observed on every DAG of every
    run of checks/c01.py, and checks/c09.py checks the conclusion on the real removeoverlaps).  If the real solver does
-   throw, the exception leaves vpsc::removeoverlaps (catch(char*) does not catch it): nothing is returned. *)
+   throw, the exception leaves vpsc::removeoverlaps (its catch clause for C strings does not catch it): nothing is returned. *)
 Theorem C09_removeoverlaps_no_overlap_static mklt xB yB rs fixed third r :
   (forall pos, strict (mklt pos)) -> (forall pos, total_on (mklt pos) (length pos)) ->
   (forall pos a b, mklt pos a b = true -> (a < length pos)%nat /\ (b < length pos)%nat) ->
